@@ -19,7 +19,7 @@ From V Require Import Base.Int Base.IO Spec.StrftimeDoc Model.Items Gen.Strftime
   Proofs.C12 Proofs.C12Str Proofs.C12Tok Proofs.C12Fam Proofs.C12View Proofs.C12All Proofs.C12Judge Proofs.C12Lenient
   Proofs.C12Exact Proofs.C12Exact2 Proofs.C12Exact3 Proofs.C12Exact4.
 From V Require Import Spec.Gregorian Model.C12 Judge.C12 Proofs.C08Sweeps.
-From V Require Model.DateTime Model.Time.
+From V Require Model.DateTime Model.Time Proofs.C12Deprecated.
 Import ListNotations.
 Open Scope Z_scope.
 
@@ -316,6 +316,46 @@ Theorem C12_holds_items_any : forall fmt l,
                   (run (bytes_of_string "sf.items") [VStr fmt; VInt l])).
 Proof. exact holds_items_any. Qed.
 Print Assumptions C12_holds_items_any.
+
+(** * The deprecated free functions `chrono::format::format` and `chrono::format::format_item` (ops sf.dfmt /
+      sf.dfmti, called through a `Display` wrapper).  Both are `DelayedFormat { .. }.fmt(w)`: `format` on the
+      given items is the Display of `format_with_items` on the same items, `format_item` writes exactly what the
+      formatter writes for that one item, and one `format_item` call per item of the iterator, concatenated,
+      is the text (or the error) of a single pass.  At the level of cases: for every kind, every value and every
+      format string the judge accepts the model's output of both ops (a DateTime<FixedOffset> whose wall clock
+      is outside the date range cannot be handed over by the harness and is `err:BADARGS` on both sides). *)
+Theorem C12_deprecated_format_item : forall a it, format_item_fn a it = format_item a it.
+Proof. exact Proofs.C12Deprecated.format_item_fn_eq. Qed.
+Print Assumptions C12_deprecated_format_item.
+Theorem C12_deprecated_format : forall a st, format_fn a st = delayed_display a st.
+Proof. exact Proofs.C12Deprecated.format_fn_eq. Qed.
+Print Assumptions C12_deprecated_format.
+Theorem C12_deprecated_per_item_display : forall a st, per_item_display a st = delayed_display a st.
+Proof. exact Proofs.C12Deprecated.per_item_display_eq. Qed.
+Print Assumptions C12_deprecated_per_item_display.
+Theorem C12_deprecated_ops_eq_fmt : forall kind v f,
+  run_dfmt true kind v f = run_dfmt false kind v f /\
+  run_dfmt false kind v f = (if wall_ok kind v then run_fmt false kind v f else VBad).
+Proof. exact (fun kind v f => conj (Proofs.C12Deprecated.run_dfmti_eq kind v f) (Proofs.C12Deprecated.run_dfmt_eq kind v f)). Qed.
+Print Assumptions C12_deprecated_ops_eq_fmt.
+Theorem C12_holds_dfmt_any : forall kind v fmt,
+  accepted (judge (bytes_of_string "sf.dfmt") [VInt kind; v; VStr fmt]
+                  (run (bytes_of_string "sf.dfmt") [VInt kind; v; VStr fmt])).
+Proof. exact Proofs.C12Deprecated.holds_dfmt_any. Qed.
+Print Assumptions C12_holds_dfmt_any.
+Theorem C12_holds_dfmti_any : forall kind v fmt,
+  accepted (judge (bytes_of_string "sf.dfmti") [VInt kind; v; VStr fmt]
+                  (run (bytes_of_string "sf.dfmti") [VInt kind; v; VStr fmt])).
+Proof. exact Proofs.C12Deprecated.holds_dfmti_any. Qed.
+Print Assumptions C12_holds_dfmti_any.
+Example C12_deprecated_example :
+  run (bytes_of_string "sf.dfmt") [VInt 3; VTup [VInt 2001; VInt 189; VInt 2094; VInt 26490000; VInt 34200]; VStr (bytes_of_string "%Y-%m-%dT%H:%M:%S%.3f%:z")]
+    = VStr (bytes_of_string "2001-07-08T10:04:54.026+09:30") /\
+  run (bytes_of_string "sf.dfmti") [VInt 3; VTup [VInt 2001; VInt 189; VInt 2094; VInt 26490000; VInt 34200]; VStr (bytes_of_string "%Y-%m-%dT%H:%M:%S%.3f%:z")]
+    = VStr (bytes_of_string "2001-07-08T10:04:54.026+09:30") /\
+  run (bytes_of_string "sf.dfmt") [VInt 3; VTup [VInt 262142; VInt 365; VInt 86399; VInt 0; VInt 1]; VStr (bytes_of_string "%Y")] = VBad.
+Proof. exact Proofs.C12Deprecated.dfmt_example. Qed.
+Print Assumptions C12_deprecated_example.
 
 (** * The lenient iterator on every string, and the internal items
 
